@@ -22,135 +22,234 @@ func (v *Value) Load() interface{} {
 
 func (v *Value) Store(x interface{}) {
 	sched.Op("atomic-store", v)
+	defer sched.Post("atomic-store", v)
 	v.v.Store(x)
 }
 
 func AddInt32(addr *int32, delta int32) int32 {
 	sched.Op("atomic-add", addr)
+	defer sched.Post("atomic-add", addr)
 	return atomic.AddInt32(addr, delta)
 }
-func LoadInt32(addr *int32) int32     { sched.Op("atomic-load", addr); return atomic.LoadInt32(addr) }
-func StoreInt32(addr *int32, v int32) { sched.Op("atomic-store", addr); atomic.StoreInt32(addr, v) }
+func LoadInt32(addr *int32) int32 { sched.Op("atomic-load", addr); return atomic.LoadInt32(addr) }
+func StoreInt32(addr *int32, v int32) {
+	sched.Op("atomic-store", addr)
+	defer sched.Post("atomic-store", addr)
+	atomic.StoreInt32(addr, v)
+}
 func SwapInt32(addr *int32, v int32) int32 {
 	sched.Op("atomic-swap", addr)
+	defer sched.Post("atomic-swap", addr)
 	return atomic.SwapInt32(addr, v)
 }
 func CompareAndSwapInt32(addr *int32, old, new int32) bool {
 	sched.Op("atomic-cas", addr)
+	defer sched.Post("atomic-cas", addr)
 	return atomic.CompareAndSwapInt32(addr, old, new)
 }
 
 func AddInt64(addr *int64, delta int64) int64 {
 	sched.Op("atomic-add", addr)
+	defer sched.Post("atomic-add", addr)
 	return atomic.AddInt64(addr, delta)
 }
-func LoadInt64(addr *int64) int64     { sched.Op("atomic-load", addr); return atomic.LoadInt64(addr) }
-func StoreInt64(addr *int64, v int64) { sched.Op("atomic-store", addr); atomic.StoreInt64(addr, v) }
+func LoadInt64(addr *int64) int64 { sched.Op("atomic-load", addr); return atomic.LoadInt64(addr) }
+func StoreInt64(addr *int64, v int64) {
+	sched.Op("atomic-store", addr)
+	defer sched.Post("atomic-store", addr)
+	atomic.StoreInt64(addr, v)
+}
 func SwapInt64(addr *int64, v int64) int64 {
 	sched.Op("atomic-swap", addr)
+	defer sched.Post("atomic-swap", addr)
 	return atomic.SwapInt64(addr, v)
 }
 func CompareAndSwapInt64(addr *int64, old, new int64) bool {
 	sched.Op("atomic-cas", addr)
+	defer sched.Post("atomic-cas", addr)
 	return atomic.CompareAndSwapInt64(addr, old, new)
 }
 
 func AddUint32(addr *uint32, delta uint32) uint32 {
 	sched.Op("atomic-add", addr)
+	defer sched.Post("atomic-add", addr)
 	return atomic.AddUint32(addr, delta)
 }
-func LoadUint32(addr *uint32) uint32     { sched.Op("atomic-load", addr); return atomic.LoadUint32(addr) }
-func StoreUint32(addr *uint32, v uint32) { sched.Op("atomic-store", addr); atomic.StoreUint32(addr, v) }
+func LoadUint32(addr *uint32) uint32 { sched.Op("atomic-load", addr); return atomic.LoadUint32(addr) }
+func StoreUint32(addr *uint32, v uint32) {
+	sched.Op("atomic-store", addr)
+	defer sched.Post("atomic-store", addr)
+	atomic.StoreUint32(addr, v)
+}
 func SwapUint32(addr *uint32, v uint32) uint32 {
 	sched.Op("atomic-swap", addr)
+	defer sched.Post("atomic-swap", addr)
 	return atomic.SwapUint32(addr, v)
 }
 func CompareAndSwapUint32(addr *uint32, old, new uint32) bool {
 	sched.Op("atomic-cas", addr)
+	defer sched.Post("atomic-cas", addr)
 	return atomic.CompareAndSwapUint32(addr, old, new)
 }
 
 func AddUint64(addr *uint64, delta uint64) uint64 {
 	sched.Op("atomic-add", addr)
+	defer sched.Post("atomic-add", addr)
 	return atomic.AddUint64(addr, delta)
 }
-func LoadUint64(addr *uint64) uint64     { sched.Op("atomic-load", addr); return atomic.LoadUint64(addr) }
-func StoreUint64(addr *uint64, v uint64) { sched.Op("atomic-store", addr); atomic.StoreUint64(addr, v) }
+func LoadUint64(addr *uint64) uint64 { sched.Op("atomic-load", addr); return atomic.LoadUint64(addr) }
+func StoreUint64(addr *uint64, v uint64) {
+	sched.Op("atomic-store", addr)
+	defer sched.Post("atomic-store", addr)
+	atomic.StoreUint64(addr, v)
+}
 func SwapUint64(addr *uint64, v uint64) uint64 {
 	sched.Op("atomic-swap", addr)
+	defer sched.Post("atomic-swap", addr)
 	return atomic.SwapUint64(addr, v)
 }
 func CompareAndSwapUint64(addr *uint64, old, new uint64) bool {
 	sched.Op("atomic-cas", addr)
+	defer sched.Post("atomic-cas", addr)
 	return atomic.CompareAndSwapUint64(addr, old, new)
 }
 
 // Int32 mirrors atomic.Int32.
 type Int32 struct{ v atomic.Int32 }
 
-func (x *Int32) Load() int32        { sched.Op("atomic-load", x); return x.v.Load() }
-func (x *Int32) Store(v int32)      { sched.Op("atomic-store", x); x.v.Store(v) }
-func (x *Int32) Add(d int32) int32  { sched.Op("atomic-add", x); return x.v.Add(d) }
-func (x *Int32) Swap(v int32) int32 { sched.Op("atomic-swap", x); return x.v.Swap(v) }
+func (x *Int32) Load() int32 { sched.Op("atomic-load", x); return x.v.Load() }
+func (x *Int32) Store(v int32) {
+	sched.Op("atomic-store", x)
+	defer sched.Post("atomic-store", x)
+	x.v.Store(v)
+}
+func (x *Int32) Add(d int32) int32 {
+	sched.Op("atomic-add", x)
+	defer sched.Post("atomic-add", x)
+	return x.v.Add(d)
+}
+func (x *Int32) Swap(v int32) int32 {
+	sched.Op("atomic-swap", x)
+	defer sched.Post("atomic-swap", x)
+	return x.v.Swap(v)
+}
 func (x *Int32) CompareAndSwap(old, new int32) bool {
 	sched.Op("atomic-cas", x)
+	defer sched.Post("atomic-cas", x)
 	return x.v.CompareAndSwap(old, new)
 }
 
 // Int64 mirrors atomic.Int64.
 type Int64 struct{ v atomic.Int64 }
 
-func (x *Int64) Load() int64        { sched.Op("atomic-load", x); return x.v.Load() }
-func (x *Int64) Store(v int64)      { sched.Op("atomic-store", x); x.v.Store(v) }
-func (x *Int64) Add(d int64) int64  { sched.Op("atomic-add", x); return x.v.Add(d) }
-func (x *Int64) Swap(v int64) int64 { sched.Op("atomic-swap", x); return x.v.Swap(v) }
+func (x *Int64) Load() int64 { sched.Op("atomic-load", x); return x.v.Load() }
+func (x *Int64) Store(v int64) {
+	sched.Op("atomic-store", x)
+	defer sched.Post("atomic-store", x)
+	x.v.Store(v)
+}
+func (x *Int64) Add(d int64) int64 {
+	sched.Op("atomic-add", x)
+	defer sched.Post("atomic-add", x)
+	return x.v.Add(d)
+}
+func (x *Int64) Swap(v int64) int64 {
+	sched.Op("atomic-swap", x)
+	defer sched.Post("atomic-swap", x)
+	return x.v.Swap(v)
+}
 func (x *Int64) CompareAndSwap(old, new int64) bool {
 	sched.Op("atomic-cas", x)
+	defer sched.Post("atomic-cas", x)
 	return x.v.CompareAndSwap(old, new)
 }
 
 // Uint32 mirrors atomic.Uint32.
 type Uint32 struct{ v atomic.Uint32 }
 
-func (x *Uint32) Load() uint32         { sched.Op("atomic-load", x); return x.v.Load() }
-func (x *Uint32) Store(v uint32)       { sched.Op("atomic-store", x); x.v.Store(v) }
-func (x *Uint32) Add(d uint32) uint32  { sched.Op("atomic-add", x); return x.v.Add(d) }
-func (x *Uint32) Swap(v uint32) uint32 { sched.Op("atomic-swap", x); return x.v.Swap(v) }
+func (x *Uint32) Load() uint32 { sched.Op("atomic-load", x); return x.v.Load() }
+func (x *Uint32) Store(v uint32) {
+	sched.Op("atomic-store", x)
+	defer sched.Post("atomic-store", x)
+	x.v.Store(v)
+}
+func (x *Uint32) Add(d uint32) uint32 {
+	sched.Op("atomic-add", x)
+	defer sched.Post("atomic-add", x)
+	return x.v.Add(d)
+}
+func (x *Uint32) Swap(v uint32) uint32 {
+	sched.Op("atomic-swap", x)
+	defer sched.Post("atomic-swap", x)
+	return x.v.Swap(v)
+}
 func (x *Uint32) CompareAndSwap(old, new uint32) bool {
 	sched.Op("atomic-cas", x)
+	defer sched.Post("atomic-cas", x)
 	return x.v.CompareAndSwap(old, new)
 }
 
 // Uint64 mirrors atomic.Uint64.
 type Uint64 struct{ v atomic.Uint64 }
 
-func (x *Uint64) Load() uint64         { sched.Op("atomic-load", x); return x.v.Load() }
-func (x *Uint64) Store(v uint64)       { sched.Op("atomic-store", x); x.v.Store(v) }
-func (x *Uint64) Add(d uint64) uint64  { sched.Op("atomic-add", x); return x.v.Add(d) }
-func (x *Uint64) Swap(v uint64) uint64 { sched.Op("atomic-swap", x); return x.v.Swap(v) }
+func (x *Uint64) Load() uint64 { sched.Op("atomic-load", x); return x.v.Load() }
+func (x *Uint64) Store(v uint64) {
+	sched.Op("atomic-store", x)
+	defer sched.Post("atomic-store", x)
+	x.v.Store(v)
+}
+func (x *Uint64) Add(d uint64) uint64 {
+	sched.Op("atomic-add", x)
+	defer sched.Post("atomic-add", x)
+	return x.v.Add(d)
+}
+func (x *Uint64) Swap(v uint64) uint64 {
+	sched.Op("atomic-swap", x)
+	defer sched.Post("atomic-swap", x)
+	return x.v.Swap(v)
+}
 func (x *Uint64) CompareAndSwap(old, new uint64) bool {
 	sched.Op("atomic-cas", x)
+	defer sched.Post("atomic-cas", x)
 	return x.v.CompareAndSwap(old, new)
 }
 
 // Bool mirrors atomic.Bool.
 type Bool struct{ v atomic.Bool }
 
-func (x *Bool) Load() bool       { sched.Op("atomic-load", x); return x.v.Load() }
-func (x *Bool) Store(v bool)     { sched.Op("atomic-store", x); x.v.Store(v) }
-func (x *Bool) Swap(v bool) bool { sched.Op("atomic-swap", x); return x.v.Swap(v) }
+func (x *Bool) Load() bool { sched.Op("atomic-load", x); return x.v.Load() }
+func (x *Bool) Store(v bool) {
+	sched.Op("atomic-store", x)
+	defer sched.Post("atomic-store", x)
+	x.v.Store(v)
+}
+func (x *Bool) Swap(v bool) bool {
+	sched.Op("atomic-swap", x)
+	defer sched.Post("atomic-swap", x)
+	return x.v.Swap(v)
+}
 func (x *Bool) CompareAndSwap(old, new bool) bool {
 	sched.Op("atomic-cas", x)
+	defer sched.Post("atomic-cas", x)
 	return x.v.CompareAndSwap(old, new)
 }
 
 // Pointer mirrors atomic.Pointer.
 type Pointer[T any] struct{ v atomic.Pointer[T] }
 
-func (x *Pointer[T]) Load() *T     { sched.Op("atomic-load", x); return x.v.Load() }
-func (x *Pointer[T]) Store(v *T)   { sched.Op("atomic-store", x); x.v.Store(v) }
-func (x *Pointer[T]) Swap(v *T) *T { sched.Op("atomic-swap", x); return x.v.Swap(v) }
+func (x *Pointer[T]) Load() *T { sched.Op("atomic-load", x); return x.v.Load() }
+func (x *Pointer[T]) Store(v *T) {
+	sched.Op("atomic-store", x)
+	defer sched.Post("atomic-store", x)
+	x.v.Store(v)
+}
+func (x *Pointer[T]) Swap(v *T) *T {
+	sched.Op("atomic-swap", x)
+	defer sched.Post("atomic-swap", x)
+	return x.v.Swap(v)
+}
 func (x *Pointer[T]) CompareAndSwap(old, new *T) bool {
 	sched.Op("atomic-cas", x)
+	defer sched.Post("atomic-cas", x)
 	return x.v.CompareAndSwap(old, new)
 }
